@@ -255,7 +255,7 @@ struct LProducer {
 	LS *s; int ops; unsigned seed; int fa[2], fb[2];
 	void operator()() {
 		std::vector<int> timers;
-		bool armed[2] = { false, false };
+		int last[2] = { -1, -1 };
 		for(int i = 0; i < ops; i++) {
 			int r = rand_r(&seed) % 100;
 			if(r < 40) { LH0 h = { s, s->fresh(0) }; s->srv->post(h); }
@@ -267,15 +267,19 @@ struct LProducer {
 			else if(r < 75) { if(!timers.empty()) s->srv->cancel_timer_event(timers[rand_r(&seed) % timers.size()]); }
 			else if(r < 90) {
 				int f = rand_r(&seed) % 2;
-				// at most one outstanding wait per descriptor and direction: cancel first (the handler is then
-				// queued with `canceled`, or was queued before by readiness) and only then arm again
-				if(armed[f]) s->srv->cancel_io_events(fa[f]);
-				LH1 h = { s, s->fresh(2) };
-				s->srv->set_io_event(fa[f], aio::io_events::in, h);
-				armed[f] = true;
-				if(rand_r(&seed) % 2) { char c = 'x'; if(::write(fb[f], &c, 1) < 0) {} }
+				// API contract: at most one outstanding wait per descriptor and direction - arm again only after the
+				// previous completion has been delivered (arm; cancel; arm without waiting is the input class of
+				// finding 2, see docs/C17.md)
+				bool free_slot = last[f] < 0;
+				if(!free_slot) { pthread_mutex_lock(&s->m); free_slot = s->cnt[last[f]] > 0; pthread_mutex_unlock(&s->m); }
+				if(free_slot) {
+					LH1 h = { s, s->fresh(2) };
+					last[f] = h.k;
+					s->srv->set_io_event(fa[f], aio::io_events::in, h);
+					if(rand_r(&seed) % 2) { char c = 'x'; if(::write(fb[f], &c, 1) < 0) {} }
+				}
 			}
-			else { int f = rand_r(&seed) % 2; s->srv->cancel_io_events(fa[f]); armed[f] = false; }
+			else { int f = rand_r(&seed) % 2; s->srv->cancel_io_events(fa[f]); }
 			if(rand_r(&seed) % 16 == 0) sched_yield();
 		}
 	}
@@ -290,6 +294,14 @@ struct LFence {
 		if(all || booster::ptime::microseconds(booster::ptime::now()) > give_up_us) { s->srv->stop(); return; }
 		LFence again = *this;
 		s->srv->set_timer_event(booster::ptime::now() + booster::ptime::milliseconds(2), again);
+	}
+};
+struct LFinal {
+	LS *s; std::vector<int> fds;
+	void operator()() const {
+		for(size_t i = 0; i < fds.size(); i++) s->srv->cancel_io_events(fds[i]);
+		LFence fence = { s, booster::ptime::microseconds(booster::ptime::now()) + 60000000LL };
+		s->srv->set_timer_event(booster::ptime::now(), fence);
 	}
 };
 struct LRunner { LS *s; void operator()() { s->loop_thread = pthread_self(); try { s->srv->run(); } catch(...) { pthread_mutex_lock(&s->m); if(s->problem.empty()) s->problem = "run-threw"; pthread_mutex_unlock(&s->m); } } };
@@ -324,10 +336,14 @@ std::string c17_loop_stress(std::vector<std::string> const &tok)
 	std::vector<booster::thread *> th;
 	for(int p = 0; p < producers; p++) th.push_back(new booster::thread(prod[p]));
 	for(size_t i = 0; i < th.size(); i++) { th[i]->join(); delete th[i]; }
-	// everything has been submitted: cancel every descriptor wait, let timers expire, stop when all handlers ran
-	for(int p = 0; p < producers; p++) for(int f = 0; f < 2; f++) srv.cancel_io_events(prod[p].fa[f]);
-	LFence fence = { &st, booster::ptime::microseconds(booster::ptime::now()) + 60000000LL };
-	srv.set_timer_event(booster::ptime::now(), fence);
+	// everything has been submitted: cancel every descriptor wait, let timers expire, stop when all handlers ran.
+	// The cancels are issued from a handler posted now, i.e. by the loop thread after every setter the producers
+	// queued has been executed: cancelling from this thread instead can overtake a still queued setter (finding 2 in
+	// docs/C17.md - this stress test did find it that way) and the handler would then stay registered for ever.
+	std::vector<int> fds;
+	for(int p = 0; p < producers; p++) for(int f = 0; f < 2; f++) fds.push_back(prod[p].fa[f]);
+	LFinal fin = { &st, fds };
+	srv.post(fin);
 	loop.join();
 	for(int p = 0; p < producers; p++) for(int f = 0; f < 2; f++) { ::close(prod[p].fa[f]); ::close(prod[p].fb[f]); }
 	if(!st.problem.empty()) return "lstress " + st.problem;
